@@ -28,6 +28,8 @@ pub open spec fn pel_wf_m(ids: Ids, idx: Idx) -> bool {
     &&& forall|x: StreamId| #[trigger] ids.contains_key(x) ==> ids[x].id == x && idx.contains_key(ids[x].consumer) && idx[ids[x].consumer]@.contains(x)
     &&& forall|c: String| #[trigger] idx.contains_key(c) ==> idx[c]@.no_duplicates() && idx[c]@.len() > 0
 }
+/// how many pending entries a consumer owns according to the per-consumer index
+pub open spec fn owned(idx: Idx, c: String) -> nat { if idx.contains_key(c) { idx[c]@.len() } else { 0 } }
 /// membership after `push`
 pub proof fn lemma_push_contains(s: Seq<StreamId>, v: StreamId)
     ensures forall|x: StreamId| #[trigger] s.push(v).contains(x) <==> (s.contains(x) || x == v),
@@ -71,12 +73,14 @@ impl PendingEntryList {
 //@@|             if x != id { assert(ids0.contains_key(x)); let cx = ids0[x].consumer; assert(idx0[cx]@.contains(x)); if cx != cons { assert(idx1[cx] == idx0[cx]); } }
 //@@|         }
 //@@|         assert forall|c: String| #[trigger] idx1.contains_key(c) implies idx1[c]@.no_duplicates() && idx1[c]@.len() > 0 by { if c != cons { assert(idx1[c] == idx0[c]); } }
+//@@|         assert forall|c: String| #[trigger] owned(idx1, c) == owned(idx0, c) + (if c == cons { 1int } else { 0int }) by { if c != cons { if idx0.contains_key(c) { assert(idx1[c] == idx0[c]); } } }
 //@@|     }
     fn add_entry(&mut self, entry: PendingEntry)
         requires old(self).wf(),
             // C16: an id enters the pending list only when it is not pending already (it was delivered to exactly one consumer)
             !old(self).ids().contains_key(entry.id),
         ensures final(self).wf(), final(self).ids() == old(self).ids().insert(entry.id, entry),
+            forall|c: String| #[trigger] owned(final(self).idx(), c) == owned(old(self).idx(), c) + (if c == entry.consumer { 1int } else { 0int }),
 //@@ body
 //@@ end
 
@@ -88,6 +92,7 @@ impl PendingEntryList {
         requires old(self).wf(),
         ensures final(self).wf(), final(self).ids() == old(self).ids().remove(*id),
             r == (if old(self).ids().contains_key(*id) { Some(old(self).ids()[*id]) } else { None }),
+            forall|c: String| #[trigger] owned(final(self).idx(), c) == owned(old(self).idx(), c) - (if old(self).ids().contains_key(*id) && c == old(self).ids()[*id].consumer { 1int } else { 0int }),
 //@@ body
 //@@ end
 
@@ -108,6 +113,8 @@ impl PendingEntryList {
 //@@|             if c != oc { assert(idx_mid[c] == idx0[c]); }
 //@@|         }
 //@@|         assert forall|c: String| #[trigger] idx_mid.contains_key(c) implies idx_mid[c]@.no_duplicates() && idx_mid[c]@.len() > 0 by { if c != oc { assert(idx_mid[c] == idx0[c]); } }
+//@@|         assert(idx0[oc]@.contains(*id));
+//@@|         assert forall|c: String| #[trigger] owned(idx_mid, c) == owned(idx0, c) - (if c == oc { 1int } else { 0int }) by { if c != oc { if idx0.contains_key(c) { assert(idx_mid[c] == idx0[c]); } } }
 //@@|     }
 //@@   after "self.entries_by_consumer .entry(new_consumer) .or_insert_with(Vec::new) .push(*id);"
 //@@|     proof {
@@ -127,6 +134,11 @@ impl PendingEntryList {
 //@@|             }
 //@@|         }
 //@@|         assert forall|c: String| #[trigger] idx1.contains_key(c) implies idx1[c]@.no_duplicates() && idx1[c]@.len() > 0 by { if c != nc { assert(idx1[c] == idx_mid[c]); } }
+//@@|         assert forall|c: String| #[trigger] owned(idx1, c) == owned(idx_mid, c) + (if c == nc { 1int } else { 0int }) by { if c != nc { if idx_mid.contains_key(c) { assert(idx1[c] == idx_mid[c]); } } }
+//@@|         assert forall|c: String| #[trigger] owned(idx1, c) == owned(idx0, c) - (if c == ids0[*id].consumer { 1int } else { 0int }) + (if c == nc { 1int } else { 0int }) by {
+//@@|             assert(owned(idx1, c) == owned(idx_mid, c) + (if c == nc { 1int } else { 0int }));
+//@@|             assert(owned(idx_mid, c) == owned(idx0, c) - (if c == ids0[*id].consumer { 1int } else { 0int }));
+//@@|         }
 //@@|     }
     fn transfer_ownership(&mut self, id: &StreamId, new_consumer: String)
         requires old(self).wf(),
@@ -138,7 +150,9 @@ impl PendingEntryList {
             old(self).ids().contains_key(*id) ==> final(self).ids().dom() == old(self).ids().dom()
                 && final(self).ids()[*id].consumer == new_consumer && final(self).ids()[*id].id == *id
                 && final(self).ids()[*id].delivery_count == old(self).ids()[*id].delivery_count + 1
-                && (forall|x: StreamId| x != *id && #[trigger] old(self).ids().contains_key(x) ==> final(self).ids()[x] == old(self).ids()[x]),
+                && (forall|x: StreamId| x != *id && #[trigger] old(self).ids().contains_key(x) ==> final(self).ids()[x] == old(self).ids()[x])
+                && (forall|c: String| #[trigger] owned(final(self).idx(), c) == owned(old(self).idx(), c)
+                        - (if c == old(self).ids()[*id].consumer { 1int } else { 0int }) + (if c == new_consumer { 1int } else { 0int })),
 //@@ body
 //@@ end
 
@@ -170,7 +184,8 @@ impl PendingEntryList {
             // C16 (XGROUP DELCONSUMER): exactly the entries of that consumer leave the pending set, and their number is returned
             forall|x: StreamId| #[trigger] final(self).ids().contains_key(x) <==> (old(self).ids().contains_key(x) && old(self).ids()[x].consumer != string_of(consumer@)),
             forall|x: StreamId| #[trigger] final(self).ids().contains_key(x) ==> final(self).ids()[x] == old(self).ids()[x],
-            r == (if old(self).idx().contains_key(string_of(consumer@)) { old(self).idx()[string_of(consumer@)]@.len() } else { 0 }),
+            r == owned(old(self).idx(), string_of(consumer@)),
+            forall|c: String| #[trigger] owned(final(self).idx(), c) == (if c == string_of(consumer@) { 0 } else { owned(old(self).idx(), c) }),
 //@@ body
 //@@ end
 }
@@ -216,6 +231,82 @@ fn verif_idx_push(m: &mut HashMap<String, Vec<StreamId>>, consumer: String, id: 
         !old(m)@.contains_key(consumer) ==> final(m)@.contains_key(consumer) && final(m)@[consumer]@ == seq![id],
         forall|c: String| c != consumer ==> (final(m)@.contains_key(c) == old(m)@.contains_key(c)) && (old(m)@.contains_key(c) ==> #[trigger] final(m)@[c] == old(m)@[c]),
 { unimplemented!() }
+
+// ======================= ConsumerGroup: the counters stay in step with the pending list =========================
+//@@ item src/storage/consumer_groups.rs Consumer
+/// MODEL of ConsumerGroup: the state behind its Arc<RwLock<..>> / Arc<Mutex<..>> fields, held directly. In the units below each
+/// `let mut g = self.<field>.write()/lock().unwrap();` is rewritten (RT, listed per unit) to `let g = &mut self.<field>;` — the lock
+/// becomes a plain borrow of the same state (lock order / blocking are not visible to contracts).
+pub struct ConsumerGroup {
+    pub pending: PendingEntryList,
+    pub consumers: HashMap<String, Consumer>,
+    pub consumer_count: usize,
+    pub total_pending: usize,
+    pub last_delivered_id: StreamId,
+}
+impl ConsumerGroup {
+    /// C16: "XPENDING's total, ID bounds and per-consumer counts always equal the actual pending set": every consumer's
+    /// pending_count is the length of its list in the pending index, every owner of a pending entry is a registered consumer,
+    /// total_pending is the size of the pending set, consumer_count the number of consumers — and the pending list's own two
+    /// indexes agree (wf)
+    spec fn gwf(self) -> bool {
+        &&& self.pending.wf()
+        &&& forall|c: String| #[trigger] self.consumers@.contains_key(c) ==> self.consumers@[c].pending_count == owned(self.pending.idx(), c)
+        &&& forall|c: String| #[trigger] self.pending.idx().contains_key(c) ==> self.consumers@.contains_key(c)
+        &&& self.total_pending == self.pending.ids().dom().len()
+        &&& self.consumer_count == self.consumers@.dom().len()
+    }
+
+//@@ unit group_create_consumer fn src/storage/consumer_groups.rs ConsumerGroup::create_consumer
+//@@   params drop "&self" add "&mut self"
+//@@   rewrite RT "let mut consumers = self.consumers.write().unwrap();" "let consumers = &mut self.consumers;"
+//@@   rewrite RT "let mut count = self.consumer_count.lock().unwrap();" "let count = &mut self.consumer_count;"
+//@@   rewrite RPCALL "SystemTime::now" verif_now
+    fn create_consumer(&mut self, consumer_name: String) -> (r: bool)
+        requires old(self).gwf(), old(self).consumer_count < usize::MAX,
+        ensures final(self).gwf(), r == !old(self).consumers@.contains_key(consumer_name),
+            final(self).pending == old(self).pending, final(self).total_pending == old(self).total_pending, final(self).last_delivered_id == old(self).last_delivered_id,
+            final(self).consumers@.dom() =~= old(self).consumers@.dom().insert(consumer_name),
+            forall|c: String| #[trigger] final(self).consumers@.contains_key(c) ==> final(self).consumers@[c].pending_count == (if old(self).consumers@.contains_key(c) { old(self).consumers@[c].pending_count } else { 0 }),
+//@@ body
+//@@ end
+
+//@@ unit group_acknowledge fn src/storage/consumer_groups.rs ConsumerGroup::acknowledge
+//@@   params drop "&self" add "&mut self"
+//@@   rewrite RT "let mut pending = self.pending.write().unwrap();" "let pending = &mut self.pending;"
+//@@   rewrite RT "let mut consumers = self.consumers.write().unwrap();" "let consumers = &mut self.consumers;"
+//@@   rewrite RT "let mut total = self.total_pending.lock().unwrap();" "let total = &mut self.total_pending;"
+//@@   rewrite RFOR 0 it
+//@@   loop 0
+//@@|     invariant
+//@@|         it.seq().len() == ids@.len(), forall|j: int| 0 <= j < ids@.len() ==> *(#[trigger] it.seq()[j]) == ids@[j], it.history@ =~= it.seq().take(it.index@),
+//@@|         pending.wf(),
+//@@|         forall|c: String| #[trigger] consumers@.contains_key(c) ==> consumers@[c].pending_count == owned(pending.idx(), c),
+//@@|         forall|c: String| #[trigger] pending.idx().contains_key(c) ==> consumers@.contains_key(c),
+//@@|         consumers@.dom() == old(self).consumers@.dom(),
+//@@|         forall|x: StreamId| #[trigger] pending.ids().contains_key(x) <==> (old(self).pending.ids().contains_key(x) && !ids@.take(it.index@ as int).contains(x)),
+//@@|         forall|x: StreamId| #[trigger] pending.ids().contains_key(x) ==> pending.ids()[x] == old(self).pending.ids()[x],
+//@@|         acked <= it.index@, old(self).pending.ids().dom().len() == pending.ids().dom().len() + acked,
+//@@   loopstart 0
+//@@|     let ghost i0 = it.index@ as int; let ghost ids_b = pending.ids(); let ghost idx_b = pending.idx(); let ghost cons_b = consumers@;
+//@@|     proof { assert(*id == ids@[i0]); assert(ids@.take(i0 + 1) =~= ids@.take(i0).push(*id)); lemma_push_contains(ids@.take(i0), *id); }
+//@@   after "if let Some(entry) = pending.remove_entry(id)"
+//@@|     proof {
+//@@|         assert forall|c: String| #[trigger] pending.idx().contains_key(c) implies consumers@.contains_key(c) by { assert(owned(pending.idx(), c) > 0); assert(owned(idx_b, c) >= owned(pending.idx(), c)); assert(idx_b.contains_key(c)); }
+//@@|     }
+//@@   afterloop 0
+//@@|     proof { assert(ids@.take(ids@.len() as int) =~= ids@); }
+    fn acknowledge(&mut self, ids: &[StreamId]) -> (r: usize)
+        requires old(self).gwf(),
+        ensures final(self).gwf(),
+            final(self).consumers@.dom() == old(self).consumers@.dom(), final(self).consumer_count == old(self).consumer_count, final(self).last_delivered_id == old(self).last_delivered_id,
+            // C16 (XACK): exactly the named entries leave the pending set (unknown ids and repeated ids change nothing more), each counted once
+            forall|x: StreamId| #[trigger] final(self).pending.ids().contains_key(x) <==> (old(self).pending.ids().contains_key(x) && !ids@.contains(x)),
+            forall|x: StreamId| #[trigger] final(self).pending.ids().contains_key(x) ==> final(self).pending.ids()[x] == old(self).pending.ids()[x],
+            r == old(self).pending.ids().dom().len() - final(self).pending.ids().dom().len(),
+//@@ body
+//@@ end
+}
 
 } // verus!
 fn main() {}
